@@ -89,6 +89,10 @@ def _kinds_build(p):
     ]
     if k in (0, 1):
         pairs += [('and_bool', a & bool(k)), ('or_bool', a | bool(k)), ('add_bool', a + bool(k))]
+    # verilog-style strings in every base (hex digits incl. the letters that are also base specifiers)
+    pairs += [('xor_hex', a ^ ("%d'h%x" % (kw, k))), ('xor_HEX', a ^ ("%d'H%X" % (kw, k))),
+              ('xor_bin', a ^ ("%d'b%s" % (kw, bin(k)[2:]))), ('xor_oct', a ^ ("%d'o%o" % (kw, k))),
+              ('add_widehex', a + ("%d'h%x" % (kw + 3, k)))]
     return _outs(pairs)
 
 
@@ -104,6 +108,7 @@ def _kinds_spec(o, p, ins):
              eq_str=o.ite(a == k, 1, 0))
     if k in (0, 1):
         d.update(and_bool=a & k, or_bool=a | k, add_bool=a + k)
+    d.update(xor_hex=a ^ k, xor_HEX=a ^ k, xor_bin=a ^ k, xor_oct=a ^ k, add_widehex=a + k)
     return d
 
 
@@ -118,10 +123,12 @@ def _kinds_lens(p):
              lt_int=1, gt_int=1, eq_int=1, eq_str=1)
     if k in (0, 1):
         d.update(and_bool=m, or_bool=m, add_bool=m + 1)
+    d.update(xor_hex=m, xor_HEX=m, xor_bin=m, xor_oct=m, add_widehex=max(wa, kw + 3) + 1)
     return d
 
 
-case('ops.operand_kinds', _kinds_spec, W=lambda p: 2 * (p['wa'] + 8) + 6, lens=_kinds_lens)(_kinds_build)
+case('ops.operand_kinds', _kinds_spec, W=lambda p: 2 * (p['wa'] + max(8, p['k'].bit_length() + 4)) + 6,
+     lens=_kinds_lens)(_kinds_build)
 
 
 # ----------------------------------------------------------------------------- slicing / concat / extension
